@@ -144,16 +144,29 @@ func VerifC02TwoCascades() {
 	rm2.SetFinishHandler(func(p Processor) { fin2++ })
 	r1 := w.newEv("a", 0, 0)
 	r1.mon = rm1
-	r2 := w.newEv("a", 0, 1)
+	// the second, waited event triggers a rule or not (a waited add of a non-triggering event returns at once and
+	// must leave the cascade in flight alone)
+	secondKind := "a"
+	if zz.Bool("secondNonTriggering") {
+		secondKind = "x"
+	}
+	r2 := w.newEv(secondKind, 0, 1)
 	r2.mon = rm2
 	w.p.AddEvent(r1.ev, rm1)
-	_, err := w.p.AddEventAndWait(r2.ev, rm2)
+	m2, err := w.p.AddEventAndWait(r2.ev, rm2)
 	zz.Reach("second-returned")
 	zz.Assert(err == nil, "C02.event-accepted")
-	c02CheckCascade(w, 1, rm2, fin2)
+	if secondKind == "a" {
+		c02CheckCascade(w, 1, rm2, fin2)
+	} else {
+		zz.Assert(m2 == nil && r2.ran == 0, "C02.non-triggering-event-runs-nothing")
+	}
 	w.p.ThreadPool().WaitAll()
 	zz.Reach("all-idle")
 	c02CheckCascade(w, 0, rm1, fin1)
 	zz.Quiesce()
-	zz.Assert(fin1 == 1 && fin2 == 1, "C02.finish-notification-exactly-once")
+	zz.Assert(fin1 == 1, "C02.finish-notification-exactly-once")
+	if secondKind == "a" {
+		zz.Assert(fin2 == 1, "C02.finish-notification-exactly-once")
+	}
 }
